@@ -191,7 +191,7 @@ struct flat_set {
 
     constexpr auto extract() && -> container_type
     {
-        auto&& container = etl::move(_container);
+        auto container = etl::move(_container);
         clear();
         return container;
     }
